@@ -150,7 +150,7 @@ func options(a *Action) string {
 	if a.TTL >= 0 && (a.N == "pub" || a.N == "link") {
 		o = append(o, fmt.Sprintf("ttl=%d", a.TTL))
 	}
-	if a.N == "sub" {
+	if a.N == "sub" || a.N == "history" {
 		if a.Last >= 0 {
 			o = append(o, fmt.Sprintf("last=%d", a.Last))
 		}
@@ -204,6 +204,12 @@ func (w *world) toModel(p bk.Pkt) map[string]any {
 		return map[string]any{"t": "pub", "ch": w.words(p.Ch), "p": p.P}
 	case "pres":
 		return map[string]any{"t": "pres", "ev": p.Ev, "ch": w.words(p.Ch), "who": w.byIDName(p.Who[0]), "user": p.Users[0]}
+	case "hist":
+		msgs := [][]any{}
+		for _, x := range p.Msgs {
+			msgs = append(msgs, []any{w.words(x[0]), x[1]})
+		}
+		return map[string]any{"t": "hist", "msgs": msgs}
 	case "resp":
 		m := map[string]any{"t": "resp", "api": p.Api, "code": p.Code, "ev": p.Ev, "name": p.Name, "ch": w.words(p.Ch)}
 		who := [][]string{}
@@ -552,6 +558,9 @@ func ReplayN(nb int, surveyed bool, mode string, licVer int, storage string, wal
 		case "link":
 			req, _ := json.Marshal(map[string]any{"name": a.Name, "key": w.key(a.K), "channel": w.ch(a.W, a.Syn) + options(&a), "subscribe": a.Sub})
 			c.Send(&mqtt.Publish{Header: mqtt.Header{QOS: 1}, MessageID: w.msgID, Topic: []byte("emitter/link/"), Payload: req})
+		case "history":
+			req, _ := json.Marshal(map[string]any{"key": w.key(a.K), "channel": w.key(a.K) + "/" + w.ch(a.W, a.Syn) + options(&a)})
+			c.Send(&mqtt.Publish{Header: mqtt.Header{QOS: 1}, MessageID: w.msgID, Topic: []byte("emitter/history/"), Payload: req})
 		case "presence":
 			m := map[string]any{"key": w.key(a.K), "channel": w.ch(a.W, a.Syn), "status": a.Status}
 			if a.Chg == "on" {
@@ -885,6 +894,7 @@ func RunFamily(c *core.Ctx, p Plan) {
 						mk(`{"n":"restart"}`),
 						mk(`{"n":"connect","c":"c2","u":"u-c2","will":{"on":false}}`),
 						mk(`{"n":"sub","c":"c2","k":"kAll","w":%s,"syn":"ok","last":2,"win":"none"}`, filt),
+						mk(`{"n":"history","c":"c2","k":"kAll","w":["a"],"syn":"ok","last":1000,"win":"none"}`),
 						mk(`{"n":"sub","c":"c2","k":"kNoSL","w":["a"],"syn":"ok","last":-1,"win":"none"}`),
 						mk(`{"n":"pub","c":"c2","k":"kAll","w":["a","b"],"syn":"ok","me0":false,"ttl":3600,"via":"","retain":false,"qos":1,"p":"m4"}`),
 						mk(`{"n":"connect","c":"c3","u":"u-c3","will":{"on":false}}`),
